@@ -44,6 +44,21 @@ def apply(data, marks, faults):
             b[off:off + w] = field_value(f[2], true, w, f[3], rest).to_bytes(w, 'big')
             if len(f) > 4 and f[4]:
                 fix = True
+        elif kind == 'fields':          # one rewrite applied to EVERY field of a kind
+            which, mode, arg = f[1], f[2], f[3]
+            for m in marks:
+                tag = m['kind'] + (':' + m['of'] if 'of' in m else '')
+                if tag != which and m['kind'] != which:
+                    continue
+                off, w = m['off'], m['w']
+                if off + w > len(b):
+                    continue
+                true = int.from_bytes(b[off:off + w], 'big')
+                rest = max(0, len(b) - 1 - (off + w))
+                b[off:off + w] = field_value(mode, true, w, arg, rest).to_bytes(
+                    w, 'big')
+            if len(f) > 4 and f[4]:
+                fix = True
         elif kind == 'trunc':           # drop n bytes at the end of the payload
             if len(b) > 8:
                 n = 1 + f[1] % (len(b) - 8)
@@ -81,6 +96,11 @@ def faults():
                   st.sampled_from(FIELD_MODES), st.integers(0, 2**64 - 1),
                   st.booleans()),
         st.tuples(st.just('field'), st.integers(0, 10**4),
+                  st.sampled_from(FIELD_MODES), st.integers(0, 2**64 - 1),
+                  st.booleans()),
+        st.tuples(st.just('fields'),
+                  st.sampled_from(['len32:F', 'len32:A', 'len32:S', 'len8', 'tag',
+                                   'len32']),
                   st.sampled_from(FIELD_MODES), st.integers(0, 2**64 - 1),
                   st.booleans()),
         st.tuples(st.just('trunc'), st.integers(0, 10**4), st.booleans()),
